@@ -121,6 +121,14 @@ def run(prop, tier, replay=None):
                 off = hw - spans[bad][0]
                 violations.append(("C02.not_linearizable", "search stuck at event %s" % (ev[off] if 0 <= off < len(ev) else off), path))
         ex.shutdown()
+        if prop == "C02" and not replay:
+            # large tables (parallel copy path of the resize) with writers parked inside their callbacks: BulkHist.tla
+            import bulkcheck
+            bn, bviol, bbroken = bulkcheck.run(prop, tier, work, "cache", binary=binary)
+            cov["large_table_scenarios"] = bn
+            cov["traces_validated_against_impl"] += bn
+            broken += bbroken
+            violations += bviol
     if not cov["samples"]:
         cov["samples"] = [{"note": "replay"}]
     cov["explanation"] = ("states/transitions: states TLC visited while searching linearisations (LinTrace.tla, one run per shard of histories); "
